@@ -12,7 +12,7 @@ import queue as _queue
 import sys
 import threading
 
-from vf.report import HarnessError
+from vf.report import HarnessError, Livelock
 
 
 class Unwind(SystemExit):
@@ -21,9 +21,10 @@ class Unwind(SystemExit):
 
 class VT:
     __slots__ = ('id', 'name', 'thread', 'sem', 'done', 'waiting', 'exc', 'kind',
-                 'result', 'tracing', 'nyields')
+                 'result', 'tracing', 'nyields', 'stuck')
 
     def __init__(self, id, name, kind):
+        self.stuck = False
         self.id = id
         self.name = name
         self.kind = kind
@@ -35,6 +36,9 @@ class VT:
         self.thread = None
         self.tracing = False
         self.nyields = 0
+
+
+STUCK_AFTER = 10      # wall-clock seconds a thread may run without reaching a scheduling point
 
 
 class Sched:
@@ -120,7 +124,7 @@ class Sched:
         return vt
 
     def _is_enabled(self, vt):
-        if vt.done:
+        if vt.done or getattr(vt, 'stuck', False):
             return False
         w = vt.waiting
         if w is None:
@@ -146,7 +150,13 @@ class Sched:
         self.current = vt
         self.nsteps += 1
         vt.sem.release()
-        self.main_sem.acquire()
+        if not self.main_sem.acquire(timeout=STUCK_AFTER):
+            # the thread is blocked outside the scheduler (a real lock or a real blocking call inside the code under test):
+            # in the real program this is a thread that never comes back - a deadlock
+            vt.stuck = True
+            self.stuck = True
+            raise Livelock('thread %s did not reach a scheduling point within %d s of wall-clock time: it is blocked on a '
+                           'real lock or blocking call (deadlock); parked in %s' % (vt.name, STUCK_AFTER, self.stack_of(vt)[-3:]))
 
     def next_deadline(self):
         best = None
@@ -180,14 +190,16 @@ class Sched:
         self.killing = True
         for vt in self.threads:
             n = 0
-            while not vt.done:
+            while not vt.done and not getattr(vt, 'stuck', False):
                 vt.sem.release()
-                self.main_sem.acquire()
+                if not self.main_sem.acquire(timeout=STUCK_AFTER):
+                    vt.stuck = True          # cannot be unwound: left behind as a daemon thread
+                    break
                 n += 1
                 if n > cap:
                     raise HarnessError('thread %s does not unwind' % vt.name)
         for vt in self.threads:
-            if vt.thread is not None:
+            if vt.thread is not None and not getattr(vt, 'stuck', False):
                 vt.thread.join(5)
         self.threads = []
         self.by_ident.clear()
